@@ -16,6 +16,8 @@ def len_(x):
         return VInt(slen(x.t))
     if isinstance(x, (VList, VTuple)):
         return VInt(len(x.items))
+    if type(x).__name__ == 'VTupSeq':
+        return x.len()
     raise Unsupported('S.len of %r' % (x,))
 
 
@@ -388,3 +390,15 @@ def consistency_witnesses():
     ts = [Enc(k, sm, big), Dec(k, sm, Enc(k, sm, big)), Seal(k, sm, big, sm), Open(k, sm, Seal(k, sm, big, sm), sm),
           Enc(k, sm, sm), Dec(k, sm, sm), Open(k, sm, sm, sm), Hmac(k, big)]
     return [slen(t) >= 0 for t in ts] + [isb(t) == isb(t) for t in ts]
+
+
+def _enum_to_str(ex, args, kw, st, fr, node):
+    """TLSEnum.toStr / toRepr: human-readable name of a numeric id (used only to build
+    messages); assumed to return a string and raise nothing."""
+    return [Outcome('normal', st, VStr('<enum-name>'))]
+
+
+for _q in ('tlslite/constants.py:TLSEnum.toStr', 'tlslite/constants.py:TLSEnum.toRepr',
+           'tlslite/constants.py:ContentType.toRepr', 'tlslite/constants.py:AlertDescription.toStr',
+           'tlslite/constants.py:HandshakeType.toStr'):
+    REG.external[_q] = _enum_to_str
